@@ -62,6 +62,18 @@ def warm(o, calls):
     Every property is stated for 'the object', not for a fresh object, so its check may be preceded by any other API calls."""
     for c in calls or ():
         name, args = c[0], list(c[1]) if len(c) > 1 and c[1] is not None else []
+        if name == "phospho_cycle":
+            # set up to k real S/T/Y sites, ask for the phosphorylated kappa, optionally clear again
+            try:
+                sites = list(o.get_all_phosphorylatable_sites())[:max(1, int(args[0]))]
+                if sites:
+                    o.set_phosphosites(sites)
+                    o.get_kappa_after_phosphorylation()
+                    if len(args) > 1 and args[1]:
+                        o.clear_phosphosites()
+            except Exception:   # noqa
+                pass
+            continue
         if name == "get_kappa_X":
             args = [list(a) if a is not None else None for a in args]
         elif name == "get_reduced_alphabet_sequence" and len(args) > 1:
